@@ -1,3 +1,4 @@
+mod attrcase;
 mod bincase;
 mod cross;
 mod db;
@@ -91,6 +92,15 @@ fn main() {
         "mig-cases" => {
             let stride: usize = arg(&args, "--stride", "1").parse().unwrap();
             cross::run_migrations(stride, &mut out);
+        }
+        "attr-cases" => {
+            let seed: u64 = arg(&args, "--seed", "1").parse().unwrap();
+            let count: usize = arg(&args, "--count", "100").parse().unwrap();
+            attrcase::run_random(seed, count, &mut out);
+        }
+        "attr-foreign" => {
+            let stdin = std::io::stdin();
+            attrcase::run_foreign(&mut stdin.lock(), &mut out);
         }
         "export-db" => {
             db::export(rbx_reflection_database::get(), &mut out);
